@@ -198,6 +198,13 @@ pub fn unroll(j: &J, k: usize) -> J {
 pub fn off_to_idx(o: usize, kind: &str, toks: &[char]) -> i64 {
     match kind {
         "str" => crate::run::str_offsets(toks).iter().position(|x| *x == o).map_or(-1, |i| i as i64),
+        "graph" => {
+            let mut offs = vec![0usize];
+            for t in toks {
+                offs.push(offs.last().unwrap() + crate::errs::expand_clusters(&[*t]).len());
+            }
+            offs.iter().position(|x| *x == o).map_or(-1, |i| i as i64)
+        }
         "mapped" | "mstream" | "iter" => {
             if o == 3 * toks.len() {
                 toks.len() as i64
